@@ -17,3 +17,26 @@ func VerifC07AdjustFormulaRef(f *File, sheet, sheetN, formula string, keepRelati
 
 // VerifC07EscapeSheetName exposes escapeSheetName.
 func VerifC07EscapeSheetName(name string) string { return escapeSheetName(name) }
+
+// VerifC07CellF reports the parts of a cell's formula that the public API does
+// not show: the hidden per-cell transformed array formula text (xlsxC.f, what
+// CalcCellValue evaluates for cells of an array formula range), and the type,
+// range (F.Ref) and content of the formula element. found is false when the
+// worksheet holds no such cell.
+func VerifC07CellF(f *File, sheet, cell string) (hidden, typ, ref, content string, found bool, err error) {
+	ws, err := f.workSheetReader(sheet)
+	if err != nil {
+		return "", "", "", "", false, err
+	}
+	for r := range ws.SheetData.Row {
+		for i := range ws.SheetData.Row[r].C {
+			if c := &ws.SheetData.Row[r].C[i]; c.R == cell {
+				if c.F != nil {
+					typ, ref, content = c.F.T, c.F.Ref, c.F.Content
+				}
+				return c.f, typ, ref, content, true, nil
+			}
+		}
+	}
+	return "", "", "", "", false, nil
+}
